@@ -294,6 +294,16 @@ fn e3_cross_types(out: &mut Vec<Edge>) {
             out.push(e);
         }
     }
+    // a global constant struct that leaves a field out
+    for usage in ["return gs.a", "if gs.b { return 1 } return 0", "let w = gs substruct S2 return 0"] {
+        out.push(Edge {
+            extra_decls: "let gs = S { a: 1 }\n",
+            text: format!("function f({}) int {{ {usage} }}", sig()),
+            family: "struct_literal_missing_fields",
+            kind: EdgeKind::Function,
+            class_key: Some("struct literal that omits declared fields".to_string()),
+        });
+    }
     out.push(fun("int", "let w = st as S2 let v = S { ...w } return v.a", "struct_composition"));
     out.push(fun("int", "let w = st as S2 let v = T { c: s, ...w } return v.a", "struct_composition"));
 }
